@@ -518,14 +518,16 @@ Definition seg_eqb (a b : Seg Qc) : bool :=
   | SArc P, SArc Q => ceqb N (a_start P) (a_start Q) && ceqb N (a_end P) (a_end Q)
   | _, _ => false
   end.
+(* joints() variant run by the implementation (detected by the harness): false = n-1 pairs,
+   true = the closing pair (s_{n-1}, s0) as well *)
+Definition CLOSING_JOINT : bool := @CJ@.
 (* case: old path, per-segment results of the implementation's kernel, the implementation's path *)
 Definition casety : Type := (list (Seg Qc) * list (Seg Qc) * list (Seg Qc))%type.
 Definition ok (c : casety) : nat :=
   let '(old, new0, res) := c in
   first_fail
-   [ (lclose seg_eqb (path_sync N false old new0) res, 1);
-     (* the repaired joints() additionally closes the closing joint, nothing else *)
-     (Nat.eqb (length (path_sync N true old new0)) (length res), 2) ].
+   [ (lclose seg_eqb (path_sync N CLOSING_JOINT old new0) res, 1);
+     (Nat.eqb (length (path_sync N (negb CLOSING_JOINT) old new0)) (length res), 2) ].
 '''
 
 OKDEF_F = r'''
@@ -538,7 +540,7 @@ Definition TF : NumT float :=   (* never used: Bezier paths only *)
 Definition casety : Type := (list (Seg float) * float * option float * (float * float) * bool)%type.
 Definition ok (c : casety) : nat :=
   let '(path, sx, sy, og, o_closed) := c in
-  match path_scale N TF false sx sy og path with
+  match path_scale N TF @CJ@ sx sy og path with
   | XOk r => if Bool.eqb (path_closed N r) o_closed then 0 else 1
   | _ => 2
   end.
@@ -601,6 +603,24 @@ def gen_path(rng):
     return specs, closed, mode
 
 
+def detect_closing_joint():
+    """which joints() the implementation runs: False = the n-1 consecutive pairs (pinned code),
+    True = the closing pair (s_{n-1}, s0) as well (what the docstring says).  Structural probe,
+    cross-checked by the triangle witness of C10_scaled_closed_refuted."""
+    from svgpathtools import Path, Line
+    p = Path(Line(0j, 1 + 0j), Line(1 + 0j, 2 + 1j), Line(2 + 1j, 0j))
+    js = list(p.joints())
+    if [(a is x and b is y) for (a, b), (x, y) in zip(js, [(p[0], p[1]), (p[1], p[2]), (p[2], p[0])])] == [True] * 3 \
+            and len(js) == 3:
+        cj = True
+    elif len(js) == 2 and js[0][0] is p[0] and js[0][1] is p[1] and js[1][0] is p[1] and js[1][1] is p[2]:
+        cj = False
+    else:
+        return None, None
+    tri = Path(Line(0.1, 1.3), Line(1.3, 0.7 + 1j), Line(0.7 + 1j, 0.1)).scaled(1.7)
+    return cj, tri[-1].end == tri[0].start
+
+
 def joints_of(segs):
     n = len(segs)
     return [segs[i].end == segs[(i + 1) % n].start for i in range(n)]
@@ -629,6 +649,21 @@ def run(rep, tier, seed, replay=None):
 
     with common.Scratch() as tmp:
         info = common.std_static(rep, 'C10', GEN_GROUPS, AGREE, tmp)
+        cj, tri_closed = detect_closing_joint()
+        if cj is None or tri_closed != cj:
+            rep.violation('Path.joints() is neither of the two modelled variants (n-1 consecutive pairs / with the '
+                          'closing pair), or the triangle witness disagrees with it',
+                          {'kind': 'variant', 'probe': 'list(Path(Line(0,1),Line(1,2+1j),Line(2+1j,0)).joints()); '
+                           'Path(Line(0.1,1.3),Line(1.3,0.7+1j),Line(0.7+1j,0.1)).scaled(1.7)',
+                           'closing_joint': cj, 'triangle_closed_after_scaled': tri_closed},
+                          found_input=False, key='joints-variant-unknown')
+            cj = bool(cj)
+        rep.cov['implementation_variants'] = {
+            'joints_closing_pair': cj,
+            'applicable_closed_path_theorem': 'C10_closed_with_closing_joint (every kernel)' if cj else
+            'C10_closed_preserved_local (translate/rotate/transform); scaled(): C10_scaled_closed_refuted'}
+        okdef_path = OKDEF_PATH.replace('@CJ@', coq_bool(cj))
+        okdef_f = OKDEF_F.replace('@CJ@', coq_bool(cj))
         quick = tier == 'quick'
         n_bez, n_arc, n_path = (600, 240, 400) if quick else (12000, 4000, 8000)
         lost = [k for k in info['untranslated'] if k.startswith('gen_bez2poly')]
@@ -880,7 +915,7 @@ def run(rep, tier, seed, replay=None):
                     fl(op['sx']), 'None' if op['sy'] is None else '(Some %s)' % fl(op['sy']), cfl(op['origin']),
                     coq_bool(new_j[-1])))
                 f_meta.append(rj)
-            if mode == 'corpus-triangle' and op['op'] == 'scale':
+            if mode == 'corpus-triangle' and op['op'] == 'scale' and not cj:
                 # the witness of Props/C10.v (C10_scaled_closed_refuted) replays on the implementation
                 got = (rsegs[-1].end.real.hex(), rsegs[0].start.real.hex())
                 evals += 1
@@ -890,8 +925,8 @@ def run(rep, tier, seed, replay=None):
 
         # ---------------- Coq
         f1, e1 = common.run_cases(tmp, '', 'casety', OKDEF_BEZ, bez_cases, shard=60, prefix='bez') if bez_cases else ([], [])
-        f3, e3 = common.run_cases(tmp, '', 'casety', OKDEF_PATH, path_cases, shard=60, prefix='path') if path_cases else ([], [])
-        f4, e4 = common.run_cases(tmp, '', 'casety', OKDEF_F, f_cases, shard=100, prefix='fl') if f_cases else ([], [])
+        f3, e3 = common.run_cases(tmp, '', 'casety', okdef_path, path_cases, shard=60, prefix='path') if path_cases else ([], [])
+        f4, e4 = common.run_cases(tmp, '', 'casety', okdef_f, f_cases, shard=100, prefix='fl') if f_cases else ([], [])
         f2, e2 = common.run_cases(tmp, 'From SVP Require Import Base.BigF.\n', 'casety', OKDEF_ARC, arc_cases,
                                   shard=12, prefix='arc') if arc_cases else ([], [])
         f5, e5 = common.run_cases(tmp, 'From SVP Require Import Base.BigF.\n', 'casety', OKDEF_TFD, tfd_cases,
